@@ -6,6 +6,7 @@ import (
 	"fmt"
 	"go/ast"
 	"os"
+	"sort"
 	"go/constant"
 	"go/token"
 	"go/types"
@@ -914,8 +915,10 @@ func (env *SpecEnv) call(e *Expr) *Value {
 		// macros see only their parameters (plus state)
 		n := *env
 		n.vars = vars
-		if r := env.namedSpecFun(sf, vars); r != nil {
-			return r
+		if !sf.Inline {
+			if r := env.namedSpecFun(sf, vars); r != nil {
+				return r
+			}
 		}
 		if !exprHasQuantifier(sf.Body, x.db) {
 			return n.eval(sf.Body)
@@ -1225,12 +1228,32 @@ func exprHasQuantifier(e *Expr, db *SpecDB) bool {
 	return false
 }
 
+// termHasBoundVar reports whether t mentions a quantifier variable that is not bound inside t.
 func termHasBoundVar(t *Term) bool {
-	if t.Op == "var" {
-		return true
+	return hasFreeVar(t, nil)
+}
+
+func hasFreeVar(t *Term, bound map[string]bool) bool {
+	switch t.Op {
+	case "var":
+		return !bound[t.Name]
+	case "forall", "exists":
+		nb := map[string]bool{}
+		for k := range bound {
+			nb[k] = true
+		}
+		for _, v := range t.Bound {
+			nb[v.Name] = true
+		}
+		for _, a := range t.Args {
+			if hasFreeVar(a, nb) {
+				return true
+			}
+		}
+		return false
 	}
 	for _, a := range t.Args {
-		if termHasBoundVar(a) {
+		if hasFreeVar(a, bound) {
 			return true
 		}
 	}
@@ -1246,35 +1269,101 @@ func (env *SpecEnv) namedSpecFun(sf *SpecFun, vars map[string]*Value) *Value {
 	var sig []string
 	for _, p := range sf.Params {
 		v := vars[p]
-		if v.K != KScalar || v.Term == nil || v.T == nil || isNilConst(v) {
+		if v == nil || v.T == nil || isNilConst(v) {
 			return nil
 		}
-		args = append(args, v.Term)
-		sig = append(sig, v.Term.Sort.String())
+		switch v.K {
+		case KScalar, KStruct, KSlice, KIface:
+		case KPtr:
+			if v.P.Cell != nil || v.P.Elem || len(v.P.Path) > 0 {
+				return nil
+			}
+		case KFunc:
+			if v.Term == nil {
+				return nil
+			}
+		default:
+			return nil
+		}
+		ok := true
+		func() {
+			defer func() {
+				if r := recover(); r != nil {
+					ok = false
+				}
+			}()
+			offs := sliceOffsetLeaves(v)
+			for li, t := range leafTerms(v) {
+				if offs[li] && t.Op == "int" {
+					// a literal slice offset is part of the function's identity, not an argument
+					// (keeps element indices in the definition free of arithmetic on a bound offset)
+					sig = append(sig, "off="+t.String())
+					continue
+				}
+				args = append(args, t)
+				sig = append(sig, t.Sort.String())
+			}
+		}()
+		if !ok {
+			return nil
+		}
+		sig = append(sig, "|"+typeKey(v.T))
 	}
 	if len(args) == 0 {
 		return nil
 	}
-	key := sf.Name + "(" + strings.Join(sig, ",") + ")"
+	// which heap arrays does the state hold for the keys this macro may read? They are part of the
+	// identity of the named function (the definition mentions them as fixed constants).
+	// the identity of the named function includes the heap arrays its body reads (they occur as
+	// fixed constants in the definition); which keys those are is learnt at the first evaluation
+	baseKey := sf.Name + "(" + strings.Join(sig, ",") + ")"
+	heapSig := ""
+	if rk, known := x.namedReads[baseKey]; known {
+		env.nameHeapTerms(rk)
+		heapSig = env.heapSignatureOf(rk)
+	} else {
+		heapSig = "?"
+	}
+	key := baseKey + "@" + heapSig
 	info, done := x.namedFuns[key]
+	if heapSig == "?" {
+		done = false
+	}
 	if !done {
 		info = &namedFun{}
 		x.namedFuns[key] = info
-		// evaluate the body once on bound variables
 		bvars := map[string]*Value{}
 		var bound []*Term
-		for i, p := range sf.Params {
-			bv := BoundVar("a_"+p, args[i].Sort)
-			bound = append(bound, bv)
-			bvars[p] = scalar(vars[p].T, bv)
+		n := 0
+		for _, p := range sf.Params {
+			v := vars[p]
+			offs := sliceOffsetLeaves(v)
+			actual := leafTerms(v)
+			li := 0
+			bv := buildValue(v.T, func(l Leaf) *Term {
+				cur := li
+				li++
+				if offs[cur] && actual[cur].Op == "int" {
+					return actual[cur]
+				}
+				t := BoundVar(fmt.Sprintf("a%d_%s", n, p), l.Sort)
+				n++
+				bound = append(bound, t)
+				return t
+			})
+			if v.K == KFunc {
+				bv.Fn = nil
+			}
+			bvars[p] = bv
 		}
 		saved := x.heapReads
 		x.heapReads = []heapRead{}
 		nf := len(x.facts)
-		n := *env
-		n.vars = bvars
-		n.fr = nil
-		n.at = nil
+		np := len(x.perm)
+		ne := *env
+		ne.vars = bvars
+		ne.fr = nil
+		ne.at = nil
 		var body *Value
 		ok := func() (ok bool) {
 			defer func() {
@@ -1283,28 +1372,75 @@ func (env *SpecEnv) namedSpecFun(sf *SpecFun, vars map[string]*Value) *Value {
 						ok = false
 						return
 					}
+					if _, isUns := r.(unsupported); isUns {
+						ok = false
+						return
+					}
 					panic(r)
 				}
 			}()
-			body = n.eval(sf.Body)
+			body = ne.eval(sf.Body)
 			return true
 		}()
 		reads := x.heapReads
 		x.heapReads = saved
-		// facts produced while evaluating on bound variables would mention them: not usable
+		if _, known := x.namedReads[baseKey]; !known {
+			var rk []string
+			seenK := map[string]bool{}
+			for _, r := range reads {
+				if !seenK[r.key] {
+					seenK[r.key] = true
+					rk = append(rk, r.key)
+				}
+			}
+			sort.Strings(rk)
+			x.namedReads[baseKey] = rk
+			key = baseKey + "@" + env.heapSignatureOf(rk)
+			x.namedFuns[key] = info
+		}
 		leaked := false
 		for _, f := range x.facts[nf:] {
 			if termHasBoundVar(f) {
 				leaked = true
 			}
 		}
-		if leaked {
-			x.facts = x.facts[:nf]
+		for _, f := range x.perm[np:] {
+			if termHasBoundVar(f) {
+				leaked = true
+			}
 		}
-		if !ok || leaked || len(reads) > 0 || body == nil || body.K != KScalar || body.T == nil {
+		if leaked {
+			// drop only the facts that mention the bound variables (closed ones, e.g. the
+			// definitional axioms of inner named functions, stay)
+			keepF := x.facts[:nf:nf]
+			for _, f := range x.facts[nf:] {
+				if !termHasBoundVar(f) {
+					keepF = append(keepF, f)
+				}
+			}
+			x.facts = keepF
+			keepP := x.perm[:np:np]
+			for _, f := range x.perm[np:] {
+				if !termHasBoundVar(f) {
+					keepP = append(keepP, f)
+				}
+			}
+			x.perm = keepP
+		}
+		// heap arrays read must be plain constants (they appear free in the definition)
+		for _, r := range reads {
+			t := x.heapArr(r.st, r.key, x.heapSort[r.key])
+			if t.Op != "const" {
+				ok = false // (the caller re-evaluates after the heap terms have been named)
+			}
+		}
+		if !ok || leaked || body == nil || body.K != KScalar || body.T == nil {
 			info.bad = true
 		} else {
 			info.name = fmt.Sprintf("sf$%s$%x", sf.Name, hashString(key))
+			if os.Getenv("GVC_DEBUG") != "" {
+				fmt.Fprintf(os.Stderr, "DEBUG named %s key=%s\n", info.name, key)
+			}
 			info.res = body.Term.Sort
 			info.resT = body.T
 			app := x.ctx.App(info.name, info.res, bound...)
@@ -1315,6 +1451,28 @@ func (env *SpecEnv) namedSpecFun(sf *SpecFun, vars map[string]*Value) *Value {
 		return nil
 	}
 	return scalar(info.resT, x.ctx.App(info.name, info.res, args...))
+}
+
+// heapSignatureOf identifies the current heap arrays for the given keys.
+func (env *SpecEnv) heapSignatureOf(keys []string) string {
+	if env.cur == nil {
+		return ""
+	}
+	var parts []string
+	for _, k := range keys {
+		t, ok := env.cur.heap[k]
+		if !ok {
+			parts = append(parts, k+"=H0")
+			continue
+		}
+		if t.Op == "const" {
+			parts = append(parts, k+"="+t.Name)
+		} else {
+			parts = append(parts, k+"=#"+fmt.Sprintf("%x", hashString(t.String())))
+		}
+	}
+	sort.Strings(parts)
+	return strings.Join(parts, ";")
 }
 
 type namedFun struct {
@@ -1437,4 +1595,31 @@ func termsHaveBoundVar(ts []*Term) bool {
 		}
 	}
 	return false
+}
+
+// nameHeapTerms binds the current heap arrays of the given keys to constants (definitions), so that
+// named spec functions can mention them.
+func (env *SpecEnv) nameHeapTerms(keys []string) {
+	if env.cur == nil {
+		return
+	}
+	x := env.x
+	for _, k := range keys {
+		t, ok := env.cur.heap[k]
+		if !ok || t.Op == "const" {
+			continue
+		}
+		c := x.ctx.Fresh("hn_"+shortKey(k), t.Sort)
+		x.facts = append(x.facts, Eq(c, t))
+		env.cur.heap[k] = c
+	}
+}
+
+// sliceOffsetLeaves marks, in leaf order, the leaves of v that are slice offsets.
+func sliceOffsetLeaves(v *Value) []bool {
+	var out []bool
+	for _, l := range leavesOf(v.T) {
+		out = append(out, strings.HasSuffix(l.Path, "#off"))
+	}
+	return out
 }
